@@ -140,7 +140,9 @@ def run_group(g, workroot, extra_defines=(), want_trace=False, only_property=Non
             if g.unwindset:
                 cb += ["--unwindset", g.unwindset, "--unwinding-assertions"]
             cb += ["--object-bits", str(ob)]
-            if g.backend == "cvc5":
+            if g.backend == "cvc5-bvint":   # pure-arithmetic lemma groups: cvc5, bit-vectors translated to integers
+                cb += ["--cvc5", "--external-smt2-solver", os.path.join(VERIF, "tools", "cvc5_bvint.sh")]
+            elif g.backend == "cvc5":
                 cb += ["--cvc5"]
             elif g.backend == "z3":
                 cb += ["--z3"]
